@@ -8,7 +8,7 @@
    [record_all h0 l] = after recording the (value, count) list l; [weight P l] = number of recorded occurrences whose
    value satisfies P; [is_kth lo hi l k e] = e is in range, fewer than k occurrences are < e and at least k are <= e,
    i.e. e is the k-th order statistic of the recorded data. *)
-From FunV Require Import Base.Tac Model.Hdr Proofs.Hdr_bits Proofs.Hdr_geom Proofs.Hdr_walk Proofs.Hdr_data Proofs.Hdr_main Proofs.Hdr_store.
+From FunV Require Import Base.Tac Model.Hdr Proofs.Hdr_bits Proofs.Hdr_geom Proofs.Hdr_walk Proofs.Hdr_data Proofs.Hdr_main Proofs.Hdr_store Proofs.Hdr_window Proofs.Hdr_newloop.
 Local Open Scope Z_scope.
 
 (* bitLen is the bit length of every positive int64 (unbounded proof from Z.log2/shift facts, no sweep) *)
@@ -171,3 +171,43 @@ Theorem C19_export_import_independent :
   (length (ms_s st) <= length (ms_s st'))%nat.
 Proof. exact export_import_independent. Qed.
 Print Assumptions C19_export_import_independent.
+
+(* window.go over arbitrary call lists (WcRecord v = Current.RecordValue(v) with v in range, WcRotate, WcMerge).
+   [periods ops] = occurrences per rotation period, newest first; [win_tot n P] = the newest n periods (padded with
+   empty ones); [merged_view lo hi sig n ops] = NewWindowed(n,..); ops; Merge(). *)
+Theorem C19_window_conserves :
+  forall lo hi sig, shape_ok lo hi sig ->
+  forall n ops, 1 <= n -> wops_ok lo hi ops -> Z.of_nat (length ops) < 2 ^ 62 ->
+  exists m, merged_view lo hi sig n ops = Ok m /\
+            h_total m = sumz (win_tot (Z.to_nat n) (periods ops)) /\ wf lo hi sig m.
+Proof. exact window_conserves. Qed.
+Print Assumptions C19_window_conserves.
+
+(* two Merges with no call in between return the same view; it is Equal to itself *)
+Theorem C19_window_merge_idempotent :
+  forall lo hi sig, shape_ok lo hi sig ->
+  forall n ops, 1 <= n -> wops_ok lo hi ops -> Z.of_nat (length ops) < 2 ^ 62 ->
+  exists m, merged_view lo hi sig n ops = Ok m /\ merged_view lo hi sig n (ops ++ [WcMerge]) = Ok m /\
+            equals m m = Ok true.
+Proof. exact window_merge_idempotent. Qed.
+Print Assumptions C19_window_merge_idempotent.
+
+(* Rotate removes from the merged view exactly the period n-1 rotations back (the oldest section) *)
+Theorem C19_window_rotate_drops_oldest :
+  forall lo hi sig, shape_ok lo hi sig ->
+  forall n ops, 1 <= n -> wops_ok lo hi ops -> Z.of_nat (length ops) < 2 ^ 62 ->
+  exists m m', merged_view lo hi sig n ops = Ok m /\ merged_view lo hi sig n (ops ++ [WcRotate]) = Ok m' /\
+    h_total m' = h_total m - nth (Z.to_nat n - 1) (periods ops ++ repeat 0 (Z.to_nat n)) 0.
+Proof. exact window_rotate_drops_oldest. Qed.
+Print Assumptions C19_window_rotate_drops_oldest.
+
+(* the exact boundary of New's termination for sigfigs 1..5, 1 <= min <= max < 2^63: inside shape_ok it returns;
+   outside, the bucket-count loop never ends (the fuelled model loop is out of fuel for every fuel) *)
+Theorem C19_new_rejects_or_terminates :
+  forall lo hi sig, 1 <= sig <= 5 -> 1 <= lo -> lo <= hi -> hi < 2 ^ 63 ->
+  (hi < 2 ^ 62 /\ Z.log2 lo + scm_of sig <= 62 -> exists h, new_hist lo hi sig = Ok h) /\
+  (2 ^ 62 <= hi \/ 62 < Z.log2 lo + scm_of sig -> new_hist lo hi sig = Diverge) /\
+  (2 ^ 62 <= hi \/ 62 < Z.log2 lo + scm_of sig ->
+   forall fuel, bucket_loop fuel hi (wrap64 (2 ^ (scm_of sig + Z.log2 lo))) 1 = None).
+Proof. exact new_terminates_iff. Qed.
+Print Assumptions C19_new_rejects_or_terminates.
